@@ -1189,7 +1189,7 @@ def _nan_monitor_worker(args):
     return r
 
 
-def nan_monitor_batch(ctx, pid, n, salt=53, name=None, force=None):
+def nan_monitor_batch(ctx, pid, n, salt=53, name=None, force=None, keep_precision=False):
     """monitored runs on an objective with NaN holes (NaN is a legal fitness: it is ordered as worst,
     two NaNs by a coin flip).  Monitors only — the model cannot follow a random ordering."""
     from .common import Slice, pmap
@@ -1206,7 +1206,7 @@ def nan_monitor_batch(ctx, pid, n, salt=53, name=None, force=None):
         spec = rand_spec(rng, **kw)
         if i % 2:
             spec["nan_slab"] = (0.15, 0.85)
-        if spec["gsc"]["kind"] == "SingularProblemPrecisionReached":
+        if spec["gsc"]["kind"] == "SingularProblemPrecisionReached" and not keep_precision:
             spec["gsc"] = {"kind": "MetaepochLimit", "limit": 6}
         specs.append(spec)
     for i, (spec, r) in enumerate(zip(specs, pmap(_nan_monitor_worker, [(spec, pid, ()) for spec in specs], chunksize=2))):
